@@ -29,11 +29,13 @@ const (
 	bPanicSlice
 	bPanicMap
 	bPanicFunc
+	bPanicNilStringer // a value whose String method itself panics (nil *url.URL)
+	bPanicBadError    // an error whose Error method panics
 	bCount
 )
 
 var behavNames = []string{"pass", "Fail", "FailNow", "Error", "Errorf", "Fatal", "Fatalf", "Require", "panic(error)",
-	"panic(string)", "panic(struct)", "panic(nil)", "nil-map-write", "index-out-of-range", "helper-goroutine-Errorf", "panic([]string)", "panic(map)", "panic(func)"}
+	"panic(string)", "panic(struct)", "panic(nil)", "nil-map-write", "index-out-of-range", "helper-goroutine-Errorf", "panic([]string)", "panic(map)", "panic(func)", "panic(nil-Stringer)", "panic(error-whose-Error-panics)"}
 
 func behavFails(b int) bool { return b != bPass }
 
@@ -106,7 +108,10 @@ type H1Cfg struct {
 	Runs           int               `json:"runs,omitempty"`          // consecutive runs on one metrics instance
 	SameScenario   bool              `json:"same_scenario,omitempty"` // ... all of the same scenario name
 	Run2Plain      bool              `json:"run2_plain,omitempty"`    // runs after the first leave every limit at its default (flags omitted)
-	MemProfile     bool              `json:"memprofile,omitempty"`    // driver f1: pass --memprofile
+	C01LateCancel  bool              `json:"c01_late_cancel,omitempty"`
+	Flags1         map[string]string `json:"flags_first_run,omitempty"` // trigger flags of the first run only (later runs use Flags): nothing of them may survive
+	FilePathKind   string            `json:"file_path_kind,omitempty"`  // file mode: "dir" = the path names a directory, "missing" = nothing there
+	MemProfile     bool              `json:"memprofile,omitempty"`      // driver f1: pass --memprofile
 	C03Overload    bool              `json:"c03_overload,omitempty"`
 	Prog           ScenarioProg      `json:"prog"`
 	CancelAtNs     int64             `json:"cancel_at,omitempty"`   // after Do was called; <0 = cancel before Do
@@ -289,6 +294,11 @@ func (h1) Decode(raw json.RawMessage) (any, error) {
 // excluded from the replay-exactness accounting.
 // forRun returns the configuration in force for run i of the simulated process.
 func (c *H1Cfg) forRun(i int) *H1Cfg {
+	if i == 0 && c.Flags1 != nil {
+		cc := *c
+		cc.Flags, cc.TickNs, cc.TickRate = c.Flags1, 0, 0
+		return &cc
+	}
 	if i == 0 || !c.Run2Plain {
 		return c
 	}
@@ -340,6 +350,10 @@ func (h h1) Gen(prop, tier string, r *simrt.Rng) (any, simrt.Config) {
 		c.MaxDurationNs = int64(simrt.Pick(r, 1100, 2100, 3200))*int64(time.Millisecond) + odd(r)
 		if thorough && r.Intn(5) == 0 {
 			c.MaxDurationNs = int64(simrt.Pick(r, 12, 65))*int64(time.Second) + odd(r)
+		}
+		if r.Intn(40) == 0 {
+			c.MaxDurationNs = int64(simrt.Pick(r, 65, 75))*int64(time.Second) + odd(r)
+			c.C01LateCancel = true // interrupted after f1 moved to its slower progress schedule
 		}
 		c.Metrics = r.Intn(3) != 0
 		c.WaitTimeoutNs = 10*int64(time.Second) + odd(r)
@@ -485,6 +499,10 @@ func (h h1) Gen(prop, tier string, r *simrt.Rng) (any, simrt.Config) {
 			}
 		}
 	}
+	if c.C01LateCancel {
+		c.CancelAtStep, c.CancelAtSite = 0, ""
+		c.CancelAtNs = int64(60*time.Second) + int64(r.Intn(4500))*int64(time.Millisecond) + 137
+	}
 
 	switch prop {
 	case "C01":
@@ -603,6 +621,11 @@ func (h h1) Gen(prop, tier string, r *simrt.Rng) (any, simrt.Config) {
 		rate := int64(r.Intn(9))
 		c.Flags["rate"] = fmt.Sprintf("%d/%dms", rate, iv)
 		c.TickNs, c.TickRate = iv*int64(time.Millisecond), int(rate)
+		if r.Intn(5) == 0 {
+			// an earlier run of the same process used other trigger options (jitter, another rate): this run is still exact
+			c.Runs, c.SameScenario = 2, r.Intn(2) == 0
+			c.Flags1 = map[string]string{"rate": fmt.Sprintf("%d/%dms", 1+r.Intn(5), iv), "distribution": simrt.Pick(r, "none", "regular"), "jitter": simrt.Pick(r, "50", "90", "10")}
+		}
 	}
 	if c.Driver != "api" && prop == "C05" {
 		c.WaitTimeoutNs = 10*int64(time.Second) + odd(r) // the command's own completion timeout
